@@ -661,8 +661,11 @@ func (s Subtitles) WriteToTTML(o io.Writer, opts ...WriteToTTMLOption) (err erro
 
 	// Add regions
 	var k []string
-	for _, region := range s.Regions {
-		k = append(k, region.ID)
+	// Regions are looked up with the key they have in the map, which isn't necessarily their ID
+	for key, region := range s.Regions {
+		if region != nil {
+			k = append(k, key)
+		}
 	}
 	sort.Strings(k)
 	for _, id := range k {
@@ -678,8 +681,10 @@ func (s Subtitles) WriteToTTML(o io.Writer, opts ...WriteToTTMLOption) (err erro
 
 	// Add styles
 	k = []string{}
-	for _, style := range s.Styles {
-		k = append(k, style.ID)
+	for key, style := range s.Styles {
+		if style != nil {
+			k = append(k, key)
+		}
 	}
 	sort.Strings(k)
 	for _, id := range k {
